@@ -177,3 +177,37 @@ def verify_lemma(db, lm, engine_cls=Engine):
         have = set(h.get_id() for h in ob.hyps)
         ob.hyps = [a for a in ex.axioms if a.get_id() not in have] + ob.hyps
     return ex, ex.obligations
+
+
+def verify_tables(db, cc):
+    """finite data obligations: every clause is evaluated over the literal class-level assignments of the class, re-read
+    from the source on every run.  A loop-free evaluation over the complete finite domain is a proof."""
+    node, src, f, modname = extract.load_class(cc.target)
+    env = dict(db.constants)
+    import hashlib
+    for st_ in node.body:
+        if isinstance(st_, ast.Assign) and len(st_.targets) == 1 and isinstance(st_.targets[0], ast.Name):
+            try:
+                env[st_.targets[0].id] = ast.literal_eval(st_.value)
+            except (ValueError, SyntaxError):
+                pass
+    env["methods"] = [m.name for m in node.body if isinstance(m, ast.FunctionDef)]
+    env["src"] = {st_.targets[0].id: ast.unparse(st_.value) for st_ in node.body
+                  if isinstance(st_, ast.Assign) and len(st_.targets) == 1 and isinstance(st_.targets[0], ast.Name)}
+    env["bases"] = [ast.unparse(b) for b in node.bases]
+    obs = []
+    for cl in cc.ensures:
+        try:
+            val = bool(eval(compile(ast.fix_missing_locations(ast.Expression(cl.expr)), cc.file, "eval"), dict(env, __builtins__=__builtins__)))
+        except Exception as e:  # a clause that cannot be evaluated is a failed obligation, with the reason attached
+            val = False
+            cl = type(cl)(cl.name, cl.expr, cl.lineno, cl.file)
+            cl.err = repr(e)
+        ob = Obligation("%s#table#%s" % (cc.target, cl.name), "post", [], z3.BoolVal(val), cc.target, cl.lineno,
+                        cl.text() + (" [evaluation error: %s]" % getattr(cl, "err", "") if getattr(cl, "err", None) else ""), [])
+        obs.append(ob)
+    seg = ast.get_source_segment(src, node) or ""
+    rec = {"qualname": cc.target, "file": f.replace(extract.REPO + "/", ""), "line": node.lineno,
+           "sha256": hashlib.sha256(seg.encode()).hexdigest(), "numba": False,
+           "dropped": ["everything but the literal class-level assignments and the method names"], "no_fuzz": True}
+    return obs, rec
